@@ -1,0 +1,32 @@
+//go:build verif
+
+// Verification hooks for property C08 (formula evaluator): the un-rendered
+// result of the evaluator, exactly as CalcCellValue obtains it, before the
+// 15-significant-digit / number-format rendering. Compiled only with
+// `-tags verif`; adds code and changes none.
+
+package excelize
+
+import "fmt"
+
+// VerifC08Arg is the exported image of a scalar formulaArg.
+type VerifC08Arg struct {
+	Type    int // ArgType: 1 number, 2 string, 3 list, 4 matrix, 5 error, 6 empty
+	Number  float64
+	String  string
+	Boolean bool
+	Error   string
+}
+
+// VerifC08Calc runs calcCellValue with the context CalcCellValue builds and
+// returns the raw result and error.
+func (f *File) VerifC08Calc(sheet, cell string, opts ...Options) (VerifC08Arg, error) {
+	options := f.getOptions(opts...)
+	token, err := f.calcCellValue(&calcContext{
+		entry:             fmt.Sprintf("%s!%s", sheet, cell),
+		maxCalcIterations: options.MaxCalcIterations,
+		iterations:        make(map[string]uint),
+		iterationsCache:   make(map[string]formulaArg),
+	}, sheet, cell)
+	return VerifC08Arg{Type: int(token.Type), Number: token.Number, String: token.String, Boolean: token.Boolean, Error: token.Error}, err
+}
